@@ -46,7 +46,11 @@ func c03Scens(quick bool) []*fatScen {
 		var ss []*fatScen
 		if c.Type == 4 {
 			ss = ext4Scenarios(c, "range", depth-1, quick)
-			ss = append(ss, ext4PrefixScenarios(c, "range", 2)[2]) // enospc
+			for _, ps := range ext4PrefixScenarios(c, "range", 2) {
+				if ps.Name == "enospc" || ps.Name == "fragdir" {
+					ss = append(ss, ps)
+				}
+			}
 		} else {
 			ss = fatScenarios(c, "range", depth, quick)
 			if c.Size <= 2<<20 {
